@@ -2,6 +2,7 @@ package core
 
 import (
 	"fmt"
+	"go/constant"
 	"go/token"
 
 	"golang.org/x/tools/go/ssa"
@@ -29,8 +30,13 @@ func (q PathQuery) Find() []ssa.Instruction {
 		return nil
 	}
 	type st struct {
-		b    *ssa.BasicBlock
-		from int
+		b      *ssa.BasicBlock
+		from   int
+		forced int // successor the incoming edge forces at b's If (-1: none) — see forcedSucc
+	}
+	type key struct {
+		b      *ssa.BasicBlock
+		forced int
 	}
 	startB := q.Fn.Blocks[0]
 	startI := 0
@@ -43,7 +49,7 @@ func (q PathQuery) Find() []ssa.Instruction {
 		}
 	}
 	prev := map[*ssa.BasicBlock]*ssa.BasicBlock{}
-	seen := map[*ssa.BasicBlock]bool{}
+	seen := map[key]bool{}
 	// scan returns (found target instr, blocked)
 	scan := func(b *ssa.BasicBlock, from int) (ssa.Instruction, bool) {
 		for i := from; i < len(b.Instrs); i++ {
@@ -73,16 +79,17 @@ func (q PathQuery) Find() []ssa.Instruction {
 		}
 		return rev
 	}
-	queue := []st{{startB, startI}}
+	queue := []st{{startB, startI, -1}}
 	first := true
 	for len(queue) > 0 {
 		cur := queue[0]
 		queue = queue[1:]
 		if !first || cur.from == 0 {
-			if seen[cur.b] {
+			k := key{cur.b, cur.forced}
+			if seen[k] {
 				continue
 			}
-			seen[cur.b] = true
+			seen[k] = true
 		}
 		first = false
 		tgt, blocked := scan(cur.b, cur.from)
@@ -93,18 +100,120 @@ func (q PathQuery) Find() []ssa.Instruction {
 			continue
 		}
 		for i, s := range cur.b.Succs {
+			if cur.forced >= 0 && i != cur.forced {
+				continue
+			}
 			if q.Edge != nil && !q.Edge(cur.b, i) {
 				continue
 			}
-			if !seen[s] {
+			f := forcedSucc(cur.b, s)
+			if !seen[key{s, f}] {
 				if _, ok := prev[s]; !ok {
 					prev[s] = cur.b
 				}
-				queue = append(queue, st{s, 0})
+				queue = append(queue, st{s, 0, f})
 			}
 		}
 	}
 	return nil
+}
+
+// forcedSucc: jump threading. If block s ends in an If whose condition is (a negation of) a phi of s
+// and the value flowing in from pred is a boolean constant, entering s from pred can only leave it by
+// the matching successor. This is what a boolean result of an inlined helper looks like
+// (`r = true; goto L` / `r = false; goto L` ... `L: if r`), and without it a path query would combine
+// the helper's "false" exit with the caller's "true" branch.
+func forcedSucc(pred, s *ssa.BasicBlock) int {
+	if len(s.Instrs) == 0 {
+		return -1
+	}
+	ifi, ok := s.Instrs[len(s.Instrs)-1].(*ssa.If)
+	if !ok {
+		return -1
+	}
+	v := ifi.Cond
+	neg := false
+	for {
+		if u, ok := v.(*ssa.UnOp); ok && u.Op == token.NOT {
+			neg = !neg
+			v = u.X
+			continue
+		}
+		break
+	}
+	// `phi == nil` / `phi != nil` with a value of known nil-ness flowing in (an error result of an inlined helper)
+	if bo, ok := v.(*ssa.BinOp); ok && (bo.Op == token.EQL || bo.Op == token.NEQ) {
+		var other ssa.Value
+		if c, ok := bo.Y.(*ssa.Const); ok && c.Value == nil {
+			other = bo.X
+		} else if c, ok := bo.X.(*ssa.Const); ok && c.Value == nil {
+			other = bo.Y
+		}
+		phi, ok := other.(*ssa.Phi)
+		if !ok || phi.Block() != s {
+			return -1
+		}
+		for i, p := range s.Preds {
+			if p != pred {
+				continue
+			}
+			n := knownNilness(phi.Edges[i])
+			if n == 0 {
+				return -1
+			}
+			truth := (n < 0) == (bo.Op == token.EQL) // value of the comparison
+			if neg {
+				truth = !truth
+			}
+			if truth {
+				return 0
+			}
+			return 1
+		}
+		return -1
+	}
+	phi, ok := v.(*ssa.Phi)
+	if !ok || phi.Block() != s {
+		return -1
+	}
+	for i, p := range s.Preds {
+		if p != pred {
+			continue
+		}
+		c, ok := phi.Edges[i].(*ssa.Const)
+		if !ok || c.Value == nil || c.Value.Kind() != constant.Bool {
+			return -1
+		}
+		truth := constant.BoolVal(c.Value)
+		if neg {
+			truth = !truth
+		}
+		if truth {
+			return 0
+		}
+		return 1
+	}
+	return -1
+}
+
+// knownNilness: -1 the value is nil, +1 it is certainly not nil, 0 unknown.
+func knownNilness(v ssa.Value) int {
+	switch x := v.(type) {
+	case *ssa.Const:
+		if x.Value == nil {
+			return -1
+		}
+	case *ssa.MakeInterface, *ssa.Alloc, *ssa.MakeMap, *ssa.MakeSlice, *ssa.MakeClosure, *ssa.FieldAddr, *ssa.IndexAddr:
+		return 1
+	case *ssa.Call:
+		pk, name := calleePkgName(x.Common())
+		switch {
+		case pk == "github.com/pkg/errors" && (name == "New" || name == "Errorf"),
+			pk == "errors" && name == "New", pk == "fmt" && name == "Errorf":
+			return 1
+		}
+	}
+	return 0
 }
 
 func firstPositioned(b *ssa.BasicBlock) ssa.Instruction {
